@@ -12,11 +12,20 @@ fn main() {
     match cmd {
         "seq" => {
             // digests of the build without any parallel feature
-            for (i, inp) in pipeline_inputs().iter().enumerate() {
-                let d = run_pipeline(inp);
-                println!("{}\t{:016x}\t{}", i, d.total(), inp.name);
-                for (name, h, n) in &d.sections {
-                    println!("#{}\t{}\t{:016x}\t{}", i, name, h, n);
+            // every input on a fresh thread (fresh thread-locals): the reference of an input must not depend on the
+            // inputs before it; a panic is recorded as digest 0
+            std::panic::set_hook(Box::new(|_| {}));
+            for (i, inp) in pipeline_inputs().into_iter().enumerate() {
+                let name = inp.name;
+                let r = std::thread::Builder::new().stack_size(64 << 20).spawn(move || run_pipeline(&inp)).expect("spawn").join();
+                match r {
+                    Ok(d) => {
+                        println!("{}\t{:016x}\t{}", i, d.total(), name);
+                        for (sname, h, n) in &d.sections {
+                            println!("#{}\t{}\t{:016x}\t{}", i, sname, h, n);
+                        }
+                    }
+                    Err(_) => println!("{}\t{:016x}\t{} [PANICKED]", i, 0u64, name),
                 }
             }
         }
